@@ -1,14 +1,20 @@
 ------------------------------ MODULE SparseCP ------------------------------
 (***************************************************************************)
 (* cImageD11.sparse_connectedpixels and sparse_connectedpixels_splat       *)
-(* (src/sparse_image.c:164-377) on a sorted coordinate list.               *)
+(* (src/sparse_image.c:164-377) on a sorted coordinate list, and the       *)
+(* argument handling of their Python wrapper                               *)
+(* sparseframe.sparse_connected_pixels (ImageD11/sparseframe.py:585-603).  *)
 (*                                                                         *)
 (* input     tern : pixel -> 0 absent / 1 listed, not above threshold /    *)
 (*                           2 listed, above threshold                     *)
 (*           the coo list (ii, jj, vv) is the row-major list of listed     *)
 (*           pixels; 8-connectivity only (as the kernels)                  *)
-(* variables alg ("sparse" | "splat"), k (next list position), pp (the     *)
-(*           persistent row-above pointer), labels (inout, POISON), S, Z   *)
+(*           "threshold" in tern is the threshold of the STATEMENT: the    *)
+(*           number the caller requested (see Stated below)                *)
+(* variables alg ("sparse" | "splat" | "frame" = the wrapper: it resolves  *)
+(*           its arguments and then runs the sparse kernel), k (next list  *)
+(*           position), pp (the persistent row-above pointer),             *)
+(*           labels (inout, POISON), S, Z                                  *)
 (*           (the caller's scratch for splat: (NS+ZPI+2)x(NF+ZPJ+2), any   *)
 (*           previous content = POISON; ZPI, ZPJ >= 0 model a caller that  *)
 (*           passes ni, nj larger than the frame, as a reused work buffer  *)
@@ -16,27 +22,59 @@
 (*           read must still all have been zeroed first), pc               *)
 (*           oob (an index left its array), rdpoison (an undefined cell    *)
 (*           was read)                                                     *)
-(* actions   SpSkip / SpFirst / SpRow0 / SpNoRowAbove / SpWalk (branches   *)
+(*           option arguments of the wrapper call (alg = "frame"; the      *)
+(*           kernels themselves have none - NOISY is a compile-time 0):    *)
+(*           targ  class of the `threshold` argument, a member of TARGS:   *)
+(*                 "none" (None: the documented default, the cut recorded  *)
+(*                 in frame.meta[data_name]["threshold"]), "zero" (exactly *)
+(*                 0: int 0, 0.0, -0.0, numpy scalars; what                *)
+(*                 lima_segmenter.clean passes), "neg", "pos"              *)
+(*           rec   the cut recorded in the frame's meta data, a member of  *)
+(*                 RECS, relative to the requested number: "absent" (no    *)
+(*                 record), "same", "below", "above" (a different number;  *)
+(*                 the harness puts listed pixels on both sides of it)     *)
+(*           names member of NAMES: "default" (label_name, data_name       *)
+(*                 omitted) or "named" (data_name="f32", label_name="cp"   *)
+(*                 next to an "intensity" array that is a decoy)           *)
+(*           used  which number the kernel receives: "unset" until Wrap,   *)
+(*                 then "requested" or "recorded"                          *)
+(* actions   Wrap (sparseframe.py:596-597 `if threshold is None:           *)
+(*           threshold = frame.meta[data_name]["threshold"]`),             *)
+(*           SpSkip / SpFirst / SpRow0 / SpNoRowAbove / SpWalk (branches   *)
 (*           of the sparse loop body incl. its three `goto newlabel`),     *)
 (*           ZeroZ / SplatSkip / SplatPixel, Compress, Relabel             *)
-(* checked   InBounds, NoPoisonRead, DsInv everywhere; at done: labels 0   *)
+(* checked   InBounds, NoPoisonRead, DsInv everywhere; WrapOK: once the    *)
+(*           wrapper has resolved its arguments the kernel is given the    *)
+(*           number of the statement (Stated: the requested threshold,     *)
+(*           whatever its value; the recorded cut only when None was       *)
+(*           passed) - independent definition "label 0 iff value <= the    *)
+(*           threshold REQUESTED"; at done: labels 0                       *)
 (*           exactly on the not-above pixels, partition = 8-connected      *)
 (*           components, numbering 1..n in raster order (=> identical to   *)
 (*           the dense kernel), np = n                                     *)
+(* not modelled  threshold=None on a frame without a recorded cut (the     *)
+(*           statement names no threshold there; the code raises KeyError) *)
+(* options   every emitted case carries its option arguments (targ, rec,   *)
+(*           names for "frame"); the enumeration is images x ALGS x TARGS  *)
+(*           x RECS x NAMES and the harness replays each case with exactly *)
+(*           these classes (numbers, Python types and the way the frame is *)
+(*           built rotate with the case index).                            *)
 (* BUG_SPLAT = TRUE models the pinned tree: splat leaves labels of         *)
 (*           sub-threshold entries unwritten (finding F14)                 *)
+(* WRAP_FALSY = TRUE models a wrapper that tests `not threshold` instead   *)
+(*           of `threshold is None` (vacuity of WrapOK: it must fail)      *)
 (***************************************************************************)
 EXTENDS Dset, Json
 
-CONSTANTS NS, NF, CAP, ALGS, BUG_SPLAT, EmitOn, ZPI, ZPJ
+CONSTANTS NS, NF, CAP, ALGS, BUG_SPLAT, EmitOn, ZPI, ZPJ, TARGS, RECS, NAMES, WRAP_FALSY
 POISON == -7
 N == NS * NF
 Px == 0..(N - 1)
 Row(p) == p \div NF
 ColOf(p) == p % NF
 
-VARIABLES tern, px, alg, k, pp, labels, S, Z, pc, T, np, oob, rdpoison
-vars == <<tern, px, alg, k, pp, labels, S, Z, pc, T, np, oob, rdpoison>>
+VARIABLES tern, px, alg, k, pp, labels, S, Z, pc, T, np, oob, rdpoison, targ, rec, names, used
+vars == <<tern, px, alg, k, pp, labels, S, Z, pc, T, np, oob, rdpoison, targ, rec, names, used>>
 
 \* px : the row-major list of listed pixels (computed once in Init; 1-based sequence)
 PixList(t) == LET F[p \in -1..(N - 1)] == IF p = -1 THEN <<>>
@@ -59,10 +97,26 @@ Init == /\ tern \in [Px -> {0, 1, 2}]
         /\ labels = [e \in 0..(Len(PixList(tern)) - 1) |-> POISON]
         /\ S = DsInit(CAP)
         /\ Z = [z \in 0..(ZN - 1) |-> POISON]
-        /\ pc = IF alg = "splat" THEN "zero" ELSE "scan"
+        /\ pc = IF alg = "splat" THEN "zero" ELSE IF alg = "frame" THEN "wrap" ELSE "scan"
         /\ T = <<>> /\ np = -1 /\ oob = FALSE /\ rdpoison = FALSE
+        /\ used = "unset"
+        /\ IF alg = "frame"
+           THEN /\ targ \in TARGS /\ rec \in RECS /\ names \in NAMES
+                \* None: the recorded cut IS the threshold of the statement (and there has to be one)
+                /\ (targ = "none") => (rec = "same")
+           ELSE targ = "direct" /\ rec = "absent" /\ names = "direct"
 
-Same == UNCHANGED <<tern, px, alg, T, np>>
+Same == UNCHANGED <<tern, px, alg, T, np, targ, rec, names, used>>
+
+\* ---------------- sparseframe.sparse_connected_pixels: argument handling --------------------
+\* the threshold the statement speaks of: the one requested; None requests the recorded cut
+Stated(ta) == IF ta = "none" THEN "recorded" ELSE "requested"
+\* Python: `threshold is None` holds for None only; `not threshold` also for every zero
+IsNone(ta) == ta = "none"
+Falsy(ta) == ta \in {"none", "zero"}
+Wrap == /\ pc = "wrap" /\ pc' = "scan"
+        /\ used' = IF (IF WRAP_FALSY THEN Falsy(targ) ELSE IsNone(targ)) THEN "recorded" ELSE "requested"
+        /\ UNCHANGED <<tern, px, alg, k, pp, labels, S, Z, T, np, oob, rdpoison, targ, rec, names>>
 
 \* ---------------- sparse_connectedpixels --------------------------------------------------
 Finish(lab0, st, newpp) ==
@@ -72,7 +126,7 @@ Finish(lab0, st, newpp) ==
      ELSE labels' = [lab0 EXCEPT ![k] = st.x] /\ S' = st.S
 OutOfBounds == oob' = TRUE /\ UNCHANGED <<k, pp, labels, S>>
 
-SpScan == pc = "scan" /\ alg = "sparse" /\ k < nnz /\ ~oob
+SpScan == pc = "scan" /\ alg \in {"sparse", "frame"} /\ k < nnz /\ ~oob
 \* west neighbour: previous list entry, same row, adjacent column, labelled
 West(lab0) == IF k > 0 /\ jj(k - 1) + 1 = jj(k) /\ ii(k - 1) = ii(k) /\ lab0[k - 1] > 0
               THEN lab0[k - 1] ELSE 0
@@ -156,16 +210,16 @@ SplatPixel ==
 \* ---------------- common tail ---------------------------------------------------------------
 Compress == /\ pc = "scan" /\ k = nnz /\ ~oob
             /\ LET c == DsCompress(S) IN T' = c[1] /\ np' = c[2] /\ S' = c[3]
-            /\ pc' = "relabel" /\ UNCHANGED <<tern, px, alg, k, pp, labels, Z, oob, rdpoison>>
+            /\ pc' = "relabel" /\ UNCHANGED <<tern, px, alg, k, pp, labels, Z, oob, rdpoison, targ, rec, names, used>>
 Relabel ==
   /\ pc = "relabel"
-  /\ IF alg = "sparse"
+  /\ IF alg \in {"sparse", "frame"}
      THEN labels' = [e \in 0..(nnz - 1) |-> IF labels[e] > 0 THEN T[labels[e]] ELSE labels[e]]
      ELSE labels' = [e \in 0..(nnz - 1) |-> IF Z[ZPos(e)] > 0 THEN T[Z[ZPos(e)]]
                                            ELSE IF BUG_SPLAT THEN labels[e] ELSE 0]
-  /\ pc' = "done" /\ UNCHANGED <<tern, px, alg, k, pp, S, Z, T, np, oob, rdpoison>>
+  /\ pc' = "done" /\ UNCHANGED <<tern, px, alg, k, pp, S, Z, T, np, oob, rdpoison, targ, rec, names, used>>
 
-Next == SpSkip \/ SpFirst \/ SpRow0 \/ SpNoRowAbove \/ SpWalk
+Next == Wrap \/ SpSkip \/ SpFirst \/ SpRow0 \/ SpNoRowAbove \/ SpWalk
         \/ ZeroZ \/ SplatSkip \/ SplatPixel \/ Compress \/ Relabel
 Spec == Init /\ [][Next]_vars
 
@@ -181,6 +235,8 @@ AboveE == {e \in 0..(nnz - 1) : above(e)}
 InBounds == ~oob
 NoPoisonRead == ~rdpoison
 DsInv == DsOK(S)
+\* the kernel is handed the threshold the caller requested (a differing recorded cut is never used for it)
+WrapOK == (alg = "frame" /\ pc # "wrap") => (used = Stated(targ) \/ rec = "same")
 Done == pc = "done"
 Defined == Done => \A e \in 0..(nnz - 1) : labels[e] # POISON
 Background == Done => \A e \in 0..(nnz - 1) : (labels[e] = 0) <=> ~above(e)
@@ -196,5 +252,6 @@ Emit == (Done /\ EmitOn) =>
           PrintT("@@" \o ToJson([ns |-> NS, nf |-> NF, alg |-> alg,
                                  tern |-> [p \in 1..N |-> tern[p - 1]],
                                  labels |-> [e \in 1..nnz |-> labels[e - 1]], np |-> np,
-                                 zpi |-> ZPI, zpj |-> ZPJ]))
+                                 zpi |-> ZPI, zpj |-> ZPJ,
+                                 targ |-> targ, rec |-> rec, names |-> names]))
 =============================================================================
